@@ -374,7 +374,11 @@ fn gen_lines(rng: &mut Rng, texts: &[Vec<char>]) -> Vec<String> {
     let n = rng.urange(1, 12);
     let mut v = vec![];
     for i in 0..n {
-        let l: String = match rng.below(10) {
+        let l: String = match rng.below(11) {
+            10 => {
+                // a line that is one delimiter / escape character, or white space only
+                rng.pick(&[" ", "\\", "/", "\t", "\u{3000}", "  ", "\u{3000} "]).to_string()
+            }
             0 => String::new(),
             1 => "a\0b".to_string(),
             2 => {
@@ -1072,6 +1076,26 @@ pub fn run_c07cli(ctx: &mut Ctx, from: u64, to: u64) {
                 );
             } else if r.signal.is_some() {
                 ctx.violation(&format!("C07:tool_killed_by_signal_on_failing_output:{tool}"), J::obj(vec![("args", J::strs(&args)), ("run", J::s(r.describe()))]));
+            }
+        }
+        // a model file that compresses extremely well (a large, regular, script-generated dictionary) loads like any other
+        if k % 8 == 3 {
+            let mut big = case.model.clone();
+            big.dict_model = (0..20_000usize)
+                .map(|i| mirror::WordWeightRecord { word: format!("w{:07}", i), weights: vec![0, 0, 0, 0, 0, 0, 0, 1, 0], comment: "generated entry".into() })
+                .collect();
+            let bytes = big.to_bytes();
+            let path = scratch(ctx, "full-compressible.zst");
+            write_zst(&path, &bytes);
+            let ratio = bytes.len() as u64 / std::fs::metadata(&path).map(|m| m.len()).unwrap_or(1).max(1);
+            let r = run_bin(ctx, "predict", &["--model".into(), path.clone()], "a\n".as_bytes()).unwrap();
+            ctx.eval(1);
+            ctx.count("highly_compressible_models_loaded_by_predict", u64::from(ratio >= 32));
+            if r.code != Some(0) {
+                ctx.violation(
+                    "C07:tool_rejects_valid_model_file_that_compresses_well",
+                    J::obj(vec![("compression_ratio", J::i(ratio)), ("model_bytes", J::i(bytes.len())), ("run", J::s(r.describe()))]),
+                );
             }
         }
         // rewriting a model in place (output path = input path) must leave a complete, equal model behind
